@@ -184,6 +184,16 @@ func TestVerifPex(t *testing.T) {
 				var raws []string
 				for i := 0; i < 1+rng.Intn(5); i++ {
 					a := vxMkArg(rng)
+					if rng.Intn(4) == 0 && len(r.Pre) > 0 {
+						// a peer that is already listed (a trusted one if there is any) named again in a peers message
+						p := r.Pre[rng.Intn(len(r.Pre))]
+						for _, q := range r.Pre {
+							if q.Trusted && rng.Intn(2) == 0 {
+								p = q
+							}
+						}
+						a = vxArg{Raw: p.Addr, Clean: p.Addr, Class: "known", Port: 0}
+					}
 					r.Args = append(r.Args, a)
 					raws = append(raws, a.Raw)
 				}
